@@ -9,8 +9,12 @@ import (
 	"os/exec"
 	"path/filepath"
 	"runtime"
+	"runtime/debug"
+	"runtime/metrics"
 	"strings"
 	"sync"
+	"sync/atomic"
+	"time"
 
 	"github.com/diskfs/go-diskfs/filesystem"
 	"github.com/diskfs/go-diskfs/filesystem/ext4"
@@ -43,12 +47,12 @@ type c18Base struct {
 }
 
 type c18Mut struct {
-	Base   string `json:"base"`
-	Region string `json:"region"`
-	Off    int64  `json:"off"`
-	Width  int    `json:"width"`
-	Value  uint64 `json:"value"`
-	Note   string `json:"note,omitempty"`
+	Base   string   `json:"base"`
+	Region string   `json:"region"`
+	Off    int64    `json:"off"`
+	Width  int      `json:"width"`
+	Value  uint64   `json:"value"`
+	Note   string   `json:"note,omitempty"`
 	Extra  []c18Mut `json:"extra,omitempty"` // further edits applied together (graph faults)
 }
 
@@ -477,7 +481,13 @@ func c18Walk(b *c18Base, st *monstore.Store) (outcome string, err error) {
 	return "walked", nil
 }
 
+var c18GCOnce sync.Once
+
 func c18Eval(res *core.Result, b *c18Base, m c18Mut, env *core.Env) {
+	c18EvalAttempt(res, b, m, env, 0)
+}
+
+func c18EvalAttempt(res *core.Result, b *c18Base, m c18Mut, env *core.Env, attempt int) {
 	st := monstore.NewOverlay(b.bytes)
 	apply := func(x c18Mut) {
 		buf := make([]byte, x.Width)
@@ -498,12 +508,43 @@ func c18Eval(res *core.Result, b *c18Base, m c18Mut, env *core.Env) {
 	fail := func(rule, cause, f string, a ...any) {
 		res.FailReplay(fmt.Sprintf("C18/%s/%s/%s", b.fsType, rule, cause), fmt.Sprintf(f, a...), m, replay)
 	}
-	var ms0, ms1 runtime.MemStats
-	runtime.ReadMemStats(&ms0)
+	// memory: the live heap is sampled while the image is walked. What counts is an allocation whose size
+	// comes from the image (it stays live at least until the next collection), not the sum of the many small
+	// short-lived allocations a walk makes.
+	heapNow := func() uint64 {
+		s := []metrics.Sample{{Name: "/memory/classes/heap/objects:bytes"}}
+		metrics.Read(s)
+		return s[0].Value.Uint64()
+	}
+	// (a low GC percentage keeps the garbage of many small allocations from looking like growth)
+	c18GCOnce.Do(func() { debug.SetGCPercent(15) })
+	heap0 := heapNow()
+	var peak atomic.Uint64
+	stopSampler := make(chan struct{})
+	samplerDone := make(chan struct{})
+	go func() {
+		defer close(samplerDone)
+		tk := time.NewTicker(500 * time.Microsecond)
+		defer tk.Stop()
+		for {
+			select {
+			case <-stopSampler:
+				return
+			case <-tk.C:
+				if h := heapNow(); h > peak.Load() {
+					peak.Store(h)
+				}
+			}
+		}
+	}()
 	var outcome string
 	var werr error
 	pi := core.Guard(func() { outcome, werr = c18Walk(b, st) })
-	runtime.ReadMemStats(&ms1)
+	if h := heapNow(); h > peak.Load() {
+		peak.Store(h)
+	}
+	close(stopSampler)
+	<-samplerDone
 	res.Count("walks", 1)
 	if pi != nil {
 		fail("panic", pi.Top+":"+pi.Class, "panic while opening/walking a %s image with %s corrupted (offset %d, width %d, value %#x%s): %s; stack: %s", b.name, m.Region, m.Off, m.Width, m.Value, noteOf(m), pi.Msg, repoFrames(pi.Stack, 6))
@@ -517,8 +558,16 @@ func c18Eval(res *core.Result, b *c18Base, m c18Mut, env *core.Env) {
 		fail("resources-out-of-proportion", c18ResReg(m), "more than 64x the image size was read while walking (image %s, %s corrupted at %d%s)", b.name, m.Region, m.Off, noteOf(m))
 		return
 	}
-	if d := ms1.TotalAlloc - ms0.TotalAlloc; d > uint64(8*b.size+(4<<20))+uint64(st.ReadBytes.Load()) {
-		fail("resources-out-of-proportion", c18ResReg(m), "%d bytes allocated while walking a %d-byte image (%s corrupted at %d, width %d, value %#x)", d, b.size, m.Region, m.Off, m.Width, m.Value)
+	if pk := peak.Load(); pk > heap0 && pk-heap0 > uint64(8*b.size+(32<<20)) {
+		if attempt == 0 {
+			// garbage of earlier mutations that happened not to be collected yet must not be blamed on this one:
+			// collect, and measure the same mutation a second time
+			runtime.GC()
+			res.Count("heap_rule.remeasured", 1)
+			c18EvalAttempt(res, b, m, env, 1)
+			return
+		}
+		fail("resources-out-of-proportion", c18ResReg(m), "the live heap grew by %d bytes while walking a %d-byte image (%s corrupted at %d, width %d, value %#x)", pk-heap0, b.size, m.Region, m.Off, m.Width, m.Value)
 		return
 	}
 	res.Count("outcome."+outcome, 1)
@@ -538,12 +587,12 @@ var c18BaseNames = []string{"fat12", "fat16", "fat32", "ext4-lib0", "ext4-lib1",
 
 func init() {
 	core.Register(&core.Check{
-		ID:    "C18",
-		Level: "fault_enumeration",
-		Rule: "valid base images (FAT12/16/32, ext4 in two library configurations and one made by mke2fs with a multi-extent sparse file, ISO9660 plain/Rock Ridge/Joliet, squashfs uncompressed and gzip) are built once; their structural regions are located by independent parsers (boot sector/BPB, FSInfo, in-use FAT entries, root and sub directory entries; superblock, group descriptors, bitmaps, in-use inodes with their extent headers, extent leaf blocks, directory blocks; volume descriptors, directory records, path table; squashfs superblock and the heads of every table); within each region every byte offset x width {1,2,4,8} x values {0,1,max,max-1,sign bit,old+1,old-1} and, for widths >= 2, the image's own structural magnitudes read raw from its header (cluster count and FAT capacity; block, inode and per-group counts; volume and table sizes; squashfs counts and table offsets), each -1/+0/+1, is applied on a copy-on-write overlay, plus targeted graph faults (FAT self-loop, 2-cycle, cross-link, out-of-range/free/bad links); each corrupted image is opened and walked (ReadDir on every directory, bounded read loop + ReadFile + Stat on every file) in a worker child with a read budget of 64x the image and a per-case CPU budget; monitors: panics, fatal deaths (journal attribution), CPU budget, non-progressing reads, TotalAlloc vs 8x image + 4 MiB, read volume. The enumeration is deterministic (the quick tier takes every k-th mutation); non-trivial = the image was still opened and walked; distinct = distinct mutation",
+		ID:          "C18",
+		Level:       "fault_enumeration",
+		Rule:        "valid base images (FAT12/16/32, ext4 in two library configurations and one made by mke2fs with a multi-extent sparse file, ISO9660 plain/Rock Ridge/Joliet, squashfs uncompressed and gzip) are built once; their structural regions are located by independent parsers (boot sector/BPB, FSInfo, in-use FAT entries, root and sub directory entries; superblock, group descriptors, bitmaps, in-use inodes with their extent headers, extent leaf blocks, directory blocks; volume descriptors, directory records, path table; squashfs superblock and the heads of every table); within each region every byte offset x width {1,2,4,8} x values {0,1,max,max-1,sign bit,old+1,old-1} and, for widths >= 2, the image's own structural magnitudes read raw from its header (cluster count and FAT capacity; block, inode and per-group counts; volume and table sizes; squashfs counts and table offsets), each -1/+0/+1, is applied on a copy-on-write overlay, plus targeted graph faults (FAT self-loop, 2-cycle, cross-link, out-of-range/free/bad links); each corrupted image is opened and walked (ReadDir on every directory, bounded read loop + ReadFile + Stat on every file) in a worker child with a read budget of 64x the image and a per-case CPU budget; monitors: panics, fatal deaths (journal attribution), CPU budget, non-progressing reads, growth of the live heap (sampled every 0.5 ms) beyond 8x image + 32 MiB, confirmed by a second measurement of the same mutation after a collection, read volume. The enumeration is deterministic (the quick tier takes every k-th mutation); non-trivial = the image was still opened and walked; distinct = distinct mutation",
 		Assumptions: []string{"quick tier: a fixed every-k-th subset of the enumeration plus all graph faults; thorough: the full enumeration", "panics are keyed by filesystem type + innermost library function + normalised message, so each distinct crash site is one finding"},
-		MinSigs:   map[string]int{"quick": 2000, "thorough": 50000},
-		CPUSec:    30,
+		MinSigs:     map[string]int{"quick": 2000, "thorough": 50000},
+		CPUSec:      30,
 		DeathKey: func(c core.Case, class, stderr, note string) string {
 			var m c18Mut
 			reg := "unknown"
